@@ -331,3 +331,94 @@ func harnessC09mux() {
 	vCover("closed")
 	vDone()
 }
+
+// C08, both directions and sequences: k sequential establishments (as documented: one at a time); each chooses its
+// direction (the plugin accepts and the host dials, or the host accepts and the plugin dials), which side goes first,
+// and a symbolic gap; IDs are symbolic and pairwise distinct. After every establishment the dialled stream must be the
+// one delivered by that ID's listener, the plugin's main accept loop must be alive and have received nothing, and the
+// session must be open (the main connection and earlier brokered connections live on it).
+func harnessC08seq() {
+	mainLn = &vListener{q: make(chan net.Conn, 4)}
+	lg := vLogger{}
+	sm := grpcmux.NewGRPCServerMuxer(lg, mainLn)
+	cm, err := grpcmux.NewGRPCClientMuxer(lg, vAddr{})
+	vAssume(err == nil)
+	h2p, p2h := make(chan *plugin.ConnInfo, 8), make(chan *plugin.ConnInfo, 8)
+	hb := newGRPCBroker(&vStreamer{out: h2p, in: p2h}, nil, UnixSocketConfig{}, nil, cm)
+	pb := newGRPCBroker(&vStreamer{out: p2h, in: h2p}, nil, UnixSocketConfig{}, nil, sm)
+	go func() { vDaemon(); hb.Run() }()
+	go func() { vDaemon(); pb.Run() }()
+	mainErr := false
+	mainGot := 0
+	go func() {
+		vDaemon()
+		for {
+			_, err := sm.Accept()
+			if err != nil {
+				mainErr = true
+				return
+			}
+			mainGot++
+		}
+	}()
+	k := vParam("k")
+	var ids []uint32
+	base := int64(0)
+	for e := 0; e < k; e++ {
+		id := vNondetU32("id")
+		for _, o := range ids {
+			vAssume(id != o)
+		}
+		ids = append(ids, id)
+		gap := vNondetTime("gap")
+		vAssume(gap > 0 && gap < 5*sec)
+		acc, dia := pb, hb
+		if vChoice(2) == 1 {
+			vCover("host-accepts")
+			acc, dia = hb, pb
+		} else {
+			vCover("plugin-accepts")
+		}
+		tA, tD := base, base+gap
+		if vChoice(2) == 1 {
+			vCover("dial-first")
+			tA, tD = base+gap, base
+		} else {
+			vCover("accept-first")
+		}
+		var got, dialed net.Conn
+		var aerr, derr error
+		doneA, doneD := make(chan struct{}), make(chan struct{})
+		go func() {
+			vSleepUntil(tA)
+			ln, err := acc.Accept(id)
+			if err == nil {
+				got, err = ln.Accept()
+			}
+			aerr = err
+			close(doneA)
+		}()
+		go func() {
+			vSleepUntil(tD)
+			dialed, derr = dia.muxDial(id)("", 0)
+			close(doneD)
+		}()
+		<-doneD
+		vAssert(derr == nil, "C08: dial for a correctly established ID succeeds")
+		select {
+		case <-doneA:
+		case <-time.After(6 * time.Second):
+			vAssert(!mainErr, "C08: the main accept loop keeps working")
+			vAssert(false, "C08: the ID's listener receives the dialled stream")
+		}
+		vAssert(aerr == nil, "C08: the ID's listener accepts")
+		vAssert(got.(*yamux.Stream) == strmPeer[dialed.(*yamux.Stream)], "C08: stream dialled for n is delivered by n's listener")
+		vAssert(!mainErr, "C08: the main accept loop keeps working")
+		vAssert(mainGot == 0, "C08: a brokered stream is never handed to the main listener")
+		vAssert(!sessionClosed, "C08: the session stays open (main and earlier connections keep working)")
+		base += 20 * sec
+		vSleepUntil(base)
+	}
+	vCover("established")
+	vDone()
+}
